@@ -68,6 +68,9 @@ def collect_pairs_power(ps, conds: Conditions):
             assert isinstance(c, Polynomial)
             if is_non_negative(c) and is_non_negative(res[v]):
                 res[v] += c
+            elif c.is_fraction() and c.get_fraction() <= 0 and res[v].is_fraction() and res[v].get_fraction() <= 0:
+                # x^-a * x^-b = x^-(a+b) wherever the left side is defined
+                res[v] += c
             elif conds.is_nonzero(v):
                 res[v] += c
             else:
